@@ -690,7 +690,7 @@ class OpsMixin:
             return self.ref_get_item(obj, self.val(idx), node)
         if not self.spec_mode:
             raise PyExc('TypeError', 'subscript of %s: %s' % (t, self.snippet(node)), implicit='type')
-        raise OutOfSubset('subscript of ' + t)
+        return self.fresh('undef')      # specification terms are total: an ill-typed subterm denotes some value
 
     def const_val(self, py):
         if liftable(py):
